@@ -707,3 +707,16 @@ Proof.
   - destruct (end_block_back _ _ _ _ _ _ _ Hstep Ht') as (t1 & Ht1 & Hs). rewrite Ht in Ht1. by injection Ht1 as <-.
 Qed.
 
+
+(* ---------- ERC-20 lock (store effect): safe only when the name is in no store ---------- *)
+
+Theorem erc_lock_partial E okf s a x s' r :
+  trig_erc_relock E s x = false -> stores_disjoint s -> do_lock_erc E okf s a x = (s', r) -> stores_disjoint s'.
+Proof.
+  unfold trig_erc_relock, do_lock_erc. intros Htr [D1 D2].
+  apply orb_false_iff in Htr as [Htr Hf]. apply orb_false_iff in Htr as [Ho Hp].
+  apply has_false in Ho, Hp, Hf.
+  destruct (negb (okf x)); intros [= <- _]; [by split|]. split; simpl; [|done].
+  intros n0 Hs. destruct (decide (n0 = x_name (e_tx E x))) as [->|Hne]; [done|].
+  rewrite lookup_insert_ne in Hs by done. by apply D1.
+Qed.
